@@ -93,18 +93,20 @@ impl AccountTrees {
         atn: Arc<AccountTreeNode>,
         other_account_tree: Option<&HashMap<String, Arc<AccountTreeNode>>>,
     ) -> Result<(), tackler::Error> {
-        let parent = atn.parent.as_str();
-        let has_parent = other_account_tree.is_some_and(|a| a.contains_key(parent))
-            || target_account_tree.contains_key(parent);
+        // walk up towards the root in a loop (not by recursion): the depth of an account
+        // name is chosen by the journal, and must not be limited by the size of the stack
+        let mut atn = atn;
+        loop {
+            let parent = atn.parent.as_str();
+            let has_parent = other_account_tree.is_some_and(|a| a.contains_key(parent))
+                || target_account_tree.contains_key(parent);
 
-        if has_parent || atn.is_root() {
-            // this breaks recursion
-            Ok(())
-        } else {
+            if has_parent || atn.is_root() {
+                return Ok(());
+            }
             let parent_atn = Arc::new(AccountTreeNode::from(parent)?);
             target_account_tree.insert(parent.to_string(), parent_atn.clone());
-
-            Self::build_account_tree(target_account_tree, parent_atn, other_account_tree)
+            atn = parent_atn;
         }
     }
 
